@@ -4,6 +4,8 @@ CONSTANTS
   Export = FALSE
   Interrupts_On = FALSE
   Fixed = TRUE
+  Pooled = TRUE
+  Idle = 1
 VIEW view
 INVARIANT MonitorOK
 CHECK_DEADLOCK FALSE
